@@ -17,7 +17,9 @@ RULE = ("the same list of random constructor/modifier/join programs (plus equal 
         "and cache_clear interleaved, all results kept alive; every result is observed (36 accessors) when created and again at the very end; "
         "neighbouring results are compared with all operators before hashing, after hashing only the left one and at the end; predicates "
         "c08_pred / c08_cmp_pred demand that all of these agree and the extracted pure model must produce the same observations; "
-        "distinct = distinct program")
+        "every URL is also observed before and after another URL was derived from it (the ['derive', op] instruction: source unchanged); a "
+        "model/implementation difference inside the long-lived worker is repeated in a fresh process and reported as a violation when the fresh "
+        "outcome equals the model's; join() of ==-but-not-identical pairs in the history routes; distinct = distinct program")
 
 ROUTES = [
     [["push", ["url", "http://example.com/a?b=1#c"]]],
